@@ -986,9 +986,9 @@ impl BRC20ProgEngine {
         if current_block_height - latest_valid_block_number > MAX_REORG_HISTORY_SIZE {
             return Err("Latest valid block number is too far behind current block height".into());
         }
-        if latest_valid_block_number == current_block_height {
-            return Ok(());
-        }
+        // A reorg to the current height is not skipped: after a crash in the middle of a reorg or
+        // a commit some tables can be ahead of the recorded height, and rolling every table back to
+        // this height is what brings them in line again
 
         self.db.write_fn(|db| db.reorg(latest_valid_block_number))
     }
